@@ -62,7 +62,7 @@ PROPS = {
     },
     'C01': {
         'level': 'proof',
-        'coq': ['Properties/C01.v'],
+        'coq': ['Properties/C01.v', 'Properties/C01_layout.v'],
         'coq_gen': ['Properties/C07_gen.v'],
         'rule': ("random cell DAGs (1..120 cells quick, sizes crossing 255/256, chains of depth 1023/1024, wide fans, heavy "
                  "sharing, all bit lengths, valid exotic cells) serialised with the 8 option combinations: the bytes of "
